@@ -12,7 +12,11 @@ record *when* a box was erased; they exist only so that the tombstone invariant 
 namespace IrVerif.LinkedSet
 
 /-- `_LinkBox` (_linked_list.py:13-64): `prev`, `next`, `value` (`none` = erased, or the root),
-    `owning_list` (`own` = "is this list").  `stamp` is ghost. -/
+    `owning_list` (`own` = "is this list").  `stamp` is ghost.
+    `own` is set to `true` by the only constructor call (`pushBox`) and never written again, exactly
+    as in the Python, where every box reachable from a list was created by that list: the check of
+    line 118 (`Res.raised` below) is defensive code that no sequence of public calls can reach —
+    that is what `C11_terminates` proves for the model. -/
 structure Box where
   prev : Nat
   next : Nat
@@ -276,11 +280,12 @@ def runHist (d : Dir) : LSet → Cursor → List Ev → LSet × Cursor × List N
     | (c', .yield v) => let r := runHist d s c' es; (r.1, r.2.1, v :: r.2.2)
     | (c', _) => runHist d s c' es
 
-/-- every value touched by some edit of the history -/
-def touchedAll : List Ev → List Nat
-  | [] => []
-  | .op o :: es => touched o ++ touchedAll es
-  | .next :: es => touchedAll es
+/-- every value touched by some edit of the history that returned normally (an edit that raises
+    writes nothing and touches nothing) -/
+def touchedRun (d : Dir) : LSet → Cursor → List Ev → List Nat
+  | _, _, [] => []
+  | s, c, .op o :: es => (if (apply s o).2 then touched o else []) ++ touchedRun d (apply s o).1 c es
+  | s, c, .next :: es => touchedRun d s (iterNext s d c).1 es
 
 /-- `l` restricted to the elements not in `T` -/
 def untouched (T : List Nat) (l : List Nat) : List Nat := l.filter (fun y => decide (y ∉ T))
